@@ -38,7 +38,7 @@ def run(ctx, rep):
         if len(ks) != 1:
             raise core.Incomplete(f'writer {bid} not found')
         b = prog.bodies[ks[0]]
-        f = ctx.fn(qual, file=file)
+        f = ctx.fnx(qual, file=file)
         site = {'file': b['file'], 'line': b['line']}
         name = qual.split('::')[-1]
         calls = b['calls']
@@ -47,6 +47,29 @@ def run(ctx, rep):
         writes = [c for c in calls if c08.WRITE_API.search(c['callee']) and not c['callee'].endswith(('create_dir_all', 'create_dir'))]
         eqs = [c for c in calls if c['callee'].endswith('PartialEq<std::vec::Vec<U, A2>>>::eq') or re.search(r'PartialEq.*::eq$|PartialEq.*::ne$', c['callee'])]
         eqs = [c for c in eqs if any('u8' in t for t in c.get('arg_tys', []))]
+        # logic moved into local helpers: a helper that wraps the whole-file read counts as the read; a bool helper that
+        # reads and compares counts as the equality test (its own contract is checked on its value tree below)
+        partial_h, cmp_helpers = [], []
+        for c in calls:
+            for h in prog.targets_of_call(c):
+                if h == ks[0] or prog.crate_of.get(h) != prog.crate_of[ks[0]] or prog.bodies[h]['id'] in GEN_WRITERS:
+                    continue
+                hr = prog.region([h])
+                hcalls = [x for k2 in hr for x in prog.bodies[k2]['calls']]
+                h_reads = [x for x in hcalls if any(x['callee'] == r or x['callee'].endswith(r.split('::', 1)[-1]) for r in WHOLE_READ)]
+                h_eqs = [x for x in hcalls if re.search(r'PartialEq.*::(eq|ne)$', x['callee']) and any('u8' in t for t in x.get('arg_tys', []))]
+                h_writes = [x for x in hcalls if c08.WRITE_API.search(x['callee'])]
+                partial_h += [x for x in hcalls if any(p in x['callee'] for p in PARTIAL_READ) or x['callee'].endswith('File::open')]
+                if h_reads and not h_writes and h_eqs and prog.bodies[h]['locals'].get('_0') == 'bool':
+                    cmp_helpers.append((c, h))
+                elif h_reads and not h_writes and not h_eqs:
+                    reads.append(c)
+        partial = partial + partial_h
+        for c, h in cmp_helpers:
+            okh, whyh = cmp_helper_contract(ctx, prog.bodies[h])
+            rep.check(okh, 'W4', f"{name}:compare-helper:{prog.bodies[h]['id'].split('::')[-1]}", 'helper is true exactly when the file could be read and its bytes equal the argument', f"{name} decides through {prog.bodies[h]['id']}, {whyh}", {'file': prog.bodies[h]['file'], 'line': prog.bodies[h]['line']})
+            reads.append(c)
+            eqs.append(dict(c, callee=c['callee'] + '::eq', via_helper=True))
         rep.check(bool(writes), 'W4', f'{name}:writes', 'write primitive present', f'{name}: no write primitive found', site)
         rep.check(bool(reads) and not partial, 'W4', f'{name}:whole-file-read', 'old content read completely (fs::read)', f"{name} reads the existing file with {sorted({c['callee'].split('::')[-1] for c in partial}) or 'nothing'} instead of a whole-file read: a file that merely *starts* with the new output compares equal and is left untouched (stale tail kept)", site)
         if not (reads and writes and eqs):
@@ -55,7 +78,7 @@ def run(ctx, rep):
         for wr in writes:
             dom = any(prog.dominates(b, r['bb'], wr['bb']) for r in reads)
             # on the path where the read succeeded, the write is only reachable through the equality test
-            through_eq = False
+            through_eq = any(e.get('via_helper') and prog.dominates(b, e['bb'], wr['bb']) for e in eqs)   # helper: read and test are one call
             for r in reads:
                 rs = c08.moved_set(b, r['dest'].split(' ')[0])
                 for i, blk in enumerate(b['blocks']):
@@ -120,6 +143,32 @@ def run(ctx, rep):
     rep.floor('W7', 'hash-order consumer sites (from C06 D1)', n, 8)
 
 
+def cmp_helper_contract(ctx, hb):
+    """A bool helper used as the compare step: with the read succeeding its value is `old == new` (new = a parameter),
+    with the read failing it is false."""
+    cands = [f for f in ctx.astq['functions'] if f['file'] == hb['file'] and f['line'] == hb['line']]
+    if len(cands) != 1:
+        return False, 'whose source could not be located'
+    from .. import inline
+    h = ctx.x(cands[0])
+    res = inline._result(h)
+
+    def is_read(x):
+        x = vt.unvar(x)
+        return isinstance(x, dict) and x.get('k') == 'call' and str(x.get('f', '')).replace(' ', '').endswith(('fs::read', 'read_to_string', 'read_to_end'))
+    ok_v = vt.unvar(vt.peval(res, lambda sc: 'Ok' if is_read(sc) else None))
+    err_v = vt.unvar(vt.peval(res, lambda sc: 'Err' if is_read(sc) else None))
+    params = [p['name'] for p in cands[0]['params']]
+    good_ok = isinstance(ok_v, dict) and ok_v.get('k') == 'op' and ok_v.get('op') == '==' and any(isinstance(vt.strip(a), dict) and vt.strip(a).get('k') == 'payload' and is_read(vt.strip(a).get('of')) for a in ok_v['args']) \
+        and any(isinstance(vt.strip(a), dict) and vt.strip(a).get('k') == 'atom' and vt.strip(a).get('root') in params for a in ok_v['args'])
+    good_err = isinstance(err_v, dict) and err_v.get('k') == 'lit' and err_v.get('v') is False
+    if not good_ok:
+        return False, f'which on a successful read yields `{vt.show(ok_v)[:80]}` instead of comparing the old bytes with its argument'
+    if not good_err:
+        return False, f'which yields `{vt.show(err_v)[:60]}` instead of false when the file cannot be read'
+    return True, ''
+
+
 def compared_and_written(ctx, f):
     """Textual identity of the value compared with the old content and of the value handed to the write."""
     cmp_v = None
@@ -136,6 +185,14 @@ def compared_and_written(ctx, f):
             y = vt.strip(x)
             if isinstance(y, dict) and y.get('k') == 'op' and y.get('op') == '==':
                 cmp_v = show_bytes(y['args'][1])
+            elif isinstance(y, dict):
+                # the comparison sits inside the (inlined) condition: old bytes = payload of the whole-file read
+                for z in vt.walk(y):
+                    if z.get('k') == 'op' and z.get('op') == '==' and len(z.get('args', [])) == 2:
+                        sides = [vt.strip(a) for a in z['args']]
+                        old = [i for i, a in enumerate(sides) if isinstance(a, dict) and a.get('k') == 'payload' and 'read' in str(vt.unvar(a.get('of')).get('f', ''))]
+                        if len(old) == 1:
+                            cmp_v = show_bytes(z['args'][1 - old[0]])
     wr_v = None
     for c in f['calls']:
         if c.get('f') in ('fs::write', 'std::fs::write') and len(c.get('args', [])) == 2:
